@@ -243,3 +243,63 @@ Definition execute (feat : bool) (instr : N) (st : state) : result :=
   | 14 => h_lea instr st
   | _ => h_trap instr st
   end.
+
+(* ------------------------------------------------------------------ *)
+(** * RunEnvironment::from_raw and the run loop without a debugger *)
+
+Definition MEMORY_MAX : N := 65536.
+Definition USER_MEMORY_END : N := 65024.
+Definition HALT_ADDRESS : N := 65535.
+
+Inductive load_result := Loaded (st : state) | LoadExit (code : N).
+
+(** [from_raw(raw)]: empty -> exception; [raw[0] + raw.len() > MEMORY_MAX] -> exception;
+    memory zeroed, [raw[1..]] copied to [orig..], [mem[orig + raw[1..].len()] = 0xF025]. *)
+Definition from_raw (raw : list N) (inp : list N) : load_result :=
+  match raw with
+  | [] => LoadExit 238
+  | orig :: body =>
+      if MEMORY_MAX <? orig + N.of_nat (length raw) then LoadExit 238
+      else
+        let m1 := mstore_list mem_zero orig body in
+        let m2 := mset m1 (orig + N.of_nat (length body)) 61477 in
+        Loaded (mkState (mkRegs 0 0 0 0 0 0 0 (USER_MEMORY_END - 1)) orig CC_U m2 orig inp [])
+  end.
+
+Inductive vm_result :=
+| VFinished (st : state)
+| VExit (code : N) (st : state)
+| VPanic (st : state)
+| VHung
+| VOutOfFuel (st : state).
+
+(** [check_pc_bounds] *)
+Inductive ordering := Less | Equal | Greater.
+Definition check_pc_bounds (st : state) : ordering :=
+  if s_pc st <? s_orig st then Less
+  else if USER_MEMORY_END <=? s_pc st then Greater
+  else Equal.
+
+(** The loop of [RunEnvironment::run] with [debugger == None].  [pc += 1] is a plain addition:
+    it panics (debug profile) if it overflows. *)
+Fixpoint vm_run (feat : bool) (fuel : nat) (st : state) (tr : list (N * N)) : vm_result * list (N * N) :=
+  if s_pc st =? HALT_ADDRESS then (VFinished st, tr)
+  else match check_pc_bounds st with
+       | Less => (VExit 238 st, tr)
+       | Greater => (VExit 238 st, tr)
+       | Equal =>
+           match fuel with
+           | O => (VOutOfFuel st, tr)
+           | S fuel' =>
+               let instr := M st (s_pc st) in
+               let tr' := (s_pc st, instr) :: tr in
+               if W <=? s_pc st + 1 then (VPanic st, tr')
+               else
+                 match execute feat instr (set_pc st (s_pc st + 1)) with
+                 | Running st' => vm_run feat fuel' st' tr'
+                 | Exited c st' => (VExit c st', tr')
+                 | Panicked st' => (VPanic st', tr')
+                 | Diverged => (VHung, tr')
+                 end
+           end
+       end.
